@@ -73,6 +73,12 @@ func runC17(c *bx.Ctx) {
 	// every value of D
 	c.Space("D")
 	forD(c, func(v ref.V) {
+		if !c.Thorough() && strings.HasPrefix(v.Shape, "big:") {
+			// formatting builds its string by repeated concatenation (quadratic): the 64 KiB+ base
+			// values are formatted in the thorough tier only
+			c.Count("skipped-big-shape-in-quick", 1)
+			return
+		}
 		if c17Format(c, v.Type, v.P, func() bx.Replay { return bx.Replay{Value: valueString(v)} }) {
 			c.NT()
 		}
